@@ -17,6 +17,8 @@ C11  Genetic maps and map functions obey their defining laws  (R6 is shared with
 """
 import ast
 
+from sa.ctorflow import wire
+
 from sa import ieee
 
 from sa.astutil import dump, where, kwargs_of, walk_no_nested, field_of, is_const
@@ -682,3 +684,4 @@ def run(prog, rep, tier):
         check_interp(prog, rep, c)
         check_order(prog, rep, c)
     check_interp_xoprob(prog, rep)
+    wire(prog, rep, "C11", 1, 115)
